@@ -51,7 +51,7 @@ func urlValues(k protoreflect.Kind, forPath bool) []urlValue {
 	bad := func(class, raw string) { out = append(out, urlValue{Class: class, Raw: raw, Invalid: true}) }
 	switch k {
 	case protoreflect.StringKind:
-		for _, s := range []struct{ c, v string }{{"ascii", "alpha-1"}, {"nonascii", "héllo wörld 日本"}, {"astral", "a😀b"}, {"reserved", "a/b?c#d&e=f+g h;i"}, {"pct-literal", "100%25 sure%2F"}, {"plus", "a+b"}} {
+		for _, s := range []struct{ c, v string }{{"ascii", "alpha-1"}, {"nonascii", "héllo wörld 日本"}, {"astral", "a😀b"}, {"reserved", "a/b?c#d&e=f+g h;i"}, {"pct-literal", "100%25 sure%2F"}, {"plus", "a+b"}, {"outer-spaces", " x y "}, {"newline", "a\nb"}, {"number-looking", "0042"}, {"bool-looking", "false"}} {
 			add(s.c, q(s.v), protoreflect.ValueOfString(s.v))
 		}
 	case protoreflect.BoolKind:
@@ -101,12 +101,17 @@ func urlValues(k protoreflect.Kind, forPath bool) []urlValue {
 		add("frac", "1.5", protoreflect.ValueOfFloat32(1.5))
 		add("neg", "-2.25", protoreflect.ValueOfFloat32(-2.25))
 		add("int", "3", protoreflect.ValueOfFloat32(3))
+		add("exponent", "1e3", protoreflect.ValueOfFloat32(1000))
+		add("neg-exponent", "25e-1", protoreflect.ValueOfFloat32(2.5))
 		bad("word", "abc")
 		bad("two-dots", "1.2.3")
 	case protoreflect.DoubleKind:
 		add("frac", "1.5", protoreflect.ValueOfFloat64(1.5))
 		add("neg", "-2.25", protoreflect.ValueOfFloat64(-2.25))
 		add("small", "0.000001", protoreflect.ValueOfFloat64(0.000001))
+		add("exponent", "1e3", protoreflect.ValueOfFloat64(1000))
+		add("neg-exponent", "25e-1", protoreflect.ValueOfFloat64(2.5))
+		add("big", "1e100", protoreflect.ValueOfFloat64(1e100))
 		bad("word", "abc")
 		bad("two-dots", "1.2.3")
 	}
@@ -228,6 +233,26 @@ func c02(c *Ctx) {
 			d, _ := u.reg.FindDescriptorByName(protoreflect.FullName(pc.In))
 			md := d.(protoreflect.MessageDescriptor)
 			fd := md.Fields().ByName(protoreflect.Name(pc.Field))
+			// OpenAPI: a path-bound field is declared as a path parameter of its own operation
+			if u.doc != nil && pc.Where == "path" {
+				caseID := "bind/openapi/" + pc.ID
+				found, opSeen := false, false
+				for _, op := range u.doc.Ops() {
+					if op.OperationID != pc.Method {
+						continue
+					}
+					opSeen = true
+					for _, p := range op.Params {
+						if p.In == "path" && p.Name == pc.Field {
+							found = true
+						}
+					}
+				}
+				if opSeen && !found {
+					c.R.Violate(caseID, "path-parameter-not-declared", "", map[string]any{"proto": protoText, "operation": pc.Method, "param": pc.Field})
+				}
+				c.R.Decided(caseID)
+			}
 			// OpenAPI: query-annotated field declared as a query parameter for every verb
 			if u.doc != nil && strings.HasPrefix(pc.Where, "query") {
 				caseID := "bind/openapi/" + pc.ID
